@@ -467,7 +467,7 @@ func runC18(c *Ctx) {
 		good := true
 		var why []string
 		for _, a := range check {
-			for _, r := range tr2.origins(a) {
+			for _, r := range tr2.originsNH(a) {
 				if fromPDA(r) {
 					continue
 				}
@@ -882,7 +882,6 @@ func runC18(c *Ctx) {
 	}
 
 }
-
 
 // isBracketingOfHost: the write stores "[" + <URL.Host> + "]" and is guarded by netip.ParseAddr(<URL.Host>) having
 // succeeded and Is6() of its result.
